@@ -41,7 +41,7 @@ func init() {
 		Mutant{"C08", "delete-after-omitempty", "internal/conf/path.go",
 			"RecordDeleteAfter     Duration     `json:\"recordDeleteAfter\"`", "RecordDeleteAfter     Duration     `json:\"recordDeleteAfter,omitempty\"`", "C08.omitempty_pointer_only"},
 		Mutant{"C08", "load-does-not-normalise-slices", "internal/conf/conf.go",
-			"	setAllNilSlicesToEmptyRecursive(reflect.ValueOf(conf))\n\n	err = conf.Validate(l)", "	err = conf.Validate(l)", "C08.nil_slices.Load"},
+			"	setAllNilSlicesToEmptyRecursive(reflect.ValueOf(conf))\n\n	// General (deprecated params)", "	// General (deprecated params)", "C08.nil_slices"},
 	)
 }
 
